@@ -605,6 +605,9 @@ def _incremental_bijection(ctx, fi: FuncInfo, call: ast.Call):
             v = single_def(fn, v.id) or v
         if not (isinstance(v, ast.Call) and isinstance(v.func, ast.Attribute) and v.func.attr == "pop" and not v.args and isinstance(v.func.value, ast.Subscript)
                 and isinstance(v.func.value.value, ast.Name)):
+            if isinstance(v, ast.Call) and not (isinstance(v.func, ast.Name) and v.func.id in ("len", "int", "min", "max", "sum", "abs", "next")):
+                # handed out by some other call (a wrapper object around the pools, a helper): not a form this rule follows
+                return None, f"value `{short(st.value)}` comes out of a call this rule does not follow"
             return False, f"value `{short(st.value)}` is not popped from a pool of unused labels: two atoms may receive the same final label"
         pools.add(v.func.value.value.id)
     if len(pools) != 1:
